@@ -19,7 +19,7 @@ def main():
     props = sys.argv[2:]
     meta = json.load(open(os.path.join(d, "meta.json"))) if os.path.exists(os.path.join(d, "meta.json")) else {}
     if not props:
-        props = meta.get("checks_to_run") or [meta.get("property")] if meta.get("property") else []
+        props = meta.get("checks_to_run") or ([meta["breaks_property"]] if meta.get("breaks_property") else [])
     tmp = tempfile.mkdtemp(prefix="seedtest_", dir="/tmp")
     wt = os.path.join(tmp, "wt")
     try:
